@@ -1,5 +1,6 @@
 mod behreplay;
 mod cases;
+mod formula;
 mod gen;
 mod histrec;
 mod ops;
@@ -61,6 +62,7 @@ fn main() {
         "f4" => cases::f4(&gets(&m, "in", ""), &gets(&m, "out", "/tmp/icverif")),
         "numinput" => cases::numinput(&gets(&m, "in", ""), &gets(&m, "out", "/tmp/icverif")),
         "numformat" => cases::numformat(&gets(&m, "in", ""), &gets(&m, "out", "/tmp/icverif")),
+        "formula" => formula::run(&gets(&m, "in", ""), &gets(&m, "out", "/tmp/icverif"), getb(&m, "thorough"), geti(&m, "seed", 1) as u64),
         "runprog" => histrec::run_program(&gets(&m, "in", ""), &gets(&m, "out", "/tmp/icverif")),
         "histbeh" => histrec::replay_behaviours(
             &gets(&m, "in", ""),
